@@ -14,6 +14,12 @@ for sp in sorted(glob.glob(os.path.join(root, 'harness', 'C*', 'spec.json'))):
     claimed.add(pid)
     bounds = '; '.join(f"{k}: {v}" for k, v in (s.get('bounds') or {}).items())
     outside = '; '.join(s.get('outside') or [])
+    def tierp(t):
+        d = dict((s.get('quick') or {}).get('params') or {})
+        if t == 'thorough':
+            d.update((s.get('thorough') or {}).get('params') or {})
+        return ', '.join(f"{k}={v}" for k, v in sorted(d.items())) or 'none'
+    bounds += '; harness parameters quick: ' + tierp('quick') + '; thorough: ' + tierp('thorough')
     checks.append({
         'property_id': pid,
         'quick_cmd': f'/verif/check {pid} quick',
